@@ -42,6 +42,20 @@ fn wide(t: &Ty) -> Option<Ty> {
         _ => None,
     }
 }
+fn wide_name(t: &Ty) -> String {
+    if *t == Ty::U256 { "core::integer::u512".into() } else { tn(&wide(t).unwrap()) }
+}
+/// Serialises a widened result: the wide integer type, or the four limbs of a u512.
+fn ser_wide(t: &Ty, v: &BigInt, out: &mut Vec<BigInt>) {
+    if *t == Ty::U256 {
+        let mask = (BigInt::one() << 128u32) - BigInt::one();
+        for k in 0..4u32 {
+            out.push((v >> (128 * k)) & mask.clone());
+        }
+    } else {
+        ser_int(&wide(t).unwrap(), v, out);
+    }
+}
 fn sqrt_ty(t: &Ty) -> Option<Ty> {
     match t {
         Ty::U(8) => Some(Ty::U(8)),
@@ -81,6 +95,15 @@ pub enum BOp {
     Not,
     Sqrt,
     WideMul,
+    WideSquare,
+    /// u256 only, guarded by y != 0: core::math::{u256_mul_mod_n, u256_inv_mod, u256_div_mod_n} and
+    /// core::integer::u512_safe_div_rem_by_u256 on x * (x ^ y).
+    MulModN,
+    InvModN,
+    DivModN,
+    U512DivRem,
+    /// u128 only.
+    ByteReverse,
     DivRem, // guarded by y != 0 -> Option<(T, T)>
     Cast(Ty), // x.try_into() -> Option
     FeltDiv,  // guarded
@@ -118,8 +141,15 @@ pub fn batch_ops(t: &Ty) -> Vec<BOp> {
                 v.push(BOp::Sqrt);
                 v.push(BOp::DivRem);
             }
-            if wide(t).is_some() {
+            if wide(t).is_some() || *t == Ty::U256 {
                 v.push(BOp::WideMul);
+                v.push(BOp::WideSquare);
+            }
+            if *t == Ty::U256 {
+                v.extend([BOp::MulModN, BOp::InvModN, BOp::DivModN, BOp::U512DivRem]);
+            }
+            if *t == Ty::U(128) {
+                v.push(BOp::ByteReverse);
             }
         }
     }
@@ -140,7 +170,7 @@ pub fn panicking_ops(t: &Ty) -> Vec<&'static str> {
 pub fn source(t: &Ty) -> String {
     let n = tn(t);
     let mut s = String::new();
-    s.push_str("use core::num::traits::{OverflowingAdd, OverflowingSub, OverflowingMul, WrappingAdd, WrappingSub, WrappingMul, CheckedAdd, CheckedSub, CheckedMul, SaturatingAdd, SaturatingSub, SaturatingMul, Sqrt, WideMul};\n");
+    s.push_str("use core::num::traits::{OverflowingAdd, OverflowingSub, OverflowingMul, WrappingAdd, WrappingSub, WrappingMul, CheckedAdd, CheckedSub, CheckedMul, SaturatingAdd, SaturatingSub, SaturatingMul, Sqrt, WideMul, WideSquare};\n");
     s.push_str("use core::traits::{Into, TryInto, DivRem};\nuse core::option::OptionTrait;\n");
     for op in panicking_ops(t) {
         let body = match op {
@@ -164,13 +194,21 @@ pub fn source(t: &Ty) -> String {
             BOp::Bit(b) => format!("let r{i}: {n} = x {b} y;"),
             BOp::Not => format!("let r{i}: {n} = ~x;"),
             BOp::Sqrt => format!("let r{i}: {} = x.sqrt();", tn(&sqrt_ty(t).unwrap())),
-            BOp::WideMul => {
-                if *t == Ty::U256 {
-                    unreachable!()
-                } else {
-                    format!("let r{i}: {} = x.wide_mul(y);", tn(&wide(t).unwrap()))
-                }
-            }
+            BOp::WideMul => format!("let r{i}: {} = x.wide_mul(y);", wide_name(t)),
+            BOp::WideSquare => format!("let r{i}: {} = x.wide_square();", wide_name(t)),
+            BOp::MulModN => format!(
+                "let r{i}: Option<u256> = match TryInto::<u256, NonZero<u256>>::try_into(y) {{ Option::Some(nz) => Option::Some(core::math::u256_mul_mod_n(x, x ^ y, nz)), Option::None => Option::None }};"
+            ),
+            BOp::InvModN => format!(
+                "let r{i}: Option<Option<u256>> = match TryInto::<u256, NonZero<u256>>::try_into(y) {{ Option::Some(nz) => Option::Some(match core::math::u256_inv_mod(x, nz) {{ Option::Some(v) => Option::Some(v.into()), Option::None => Option::None }}), Option::None => Option::None }};"
+            ),
+            BOp::DivModN => format!(
+                "let r{i}: Option<Option<u256>> = match TryInto::<u256, NonZero<u256>>::try_into(y) {{ Option::Some(nz) => Option::Some(core::math::u256_div_mod_n(x ^ y, x, nz)), Option::None => Option::None }};"
+            ),
+            BOp::U512DivRem => format!(
+                "let r{i}: Option<(core::integer::u512, u256)> = match TryInto::<u256, NonZero<u256>>::try_into(y) {{ Option::Some(nz) => Option::Some(core::integer::u512_safe_div_rem_by_u256(x.wide_mul(x ^ y), nz)), Option::None => Option::None }};"
+            ),
+            BOp::ByteReverse => format!("let r{i}: u128 = core::integer::u128_byte_reverse(x);"),
             BOp::DivRem => format!(
                 "let r{i}: Option<({n}, {n})> = match TryInto::<{n}, NonZero<{n}>>::try_into(y) {{ Option::Some(nz) => Option::Some(DivRem::div_rem(x, nz)), Option::None => Option::None }};"
             ),
@@ -209,10 +247,13 @@ fn wrap_to(t: &Ty, v: &BigInt) -> BigInt {
 
 /// The mathematical model of the batch function.
 pub fn model_batch(t: &Ty, x: &BigInt, y: &BigInt) -> Vec<BigInt> {
+    model_ops(t, &batch_ops(t), x, y)
+}
+fn model_ops(t: &Ty, ops: &[BOp], x: &BigInt, y: &BigInt) -> Vec<BigInt> {
     let mut o = vec![];
     let (min, max) = (t.min(), t.max());
     let p = prime();
-    for op in batch_ops(t) {
+    for op in ops.iter().cloned() {
         let arith = |k: &str| -> BigInt {
             match k {
                 "add" => x + y,
@@ -264,7 +305,43 @@ pub fn model_batch(t: &Ty, x: &BigInt, y: &BigInt) -> Vec<BigInt> {
             }
             BOp::Not => ser_int(t, &(&max - x), &mut o),
             BOp::Sqrt => o.push(x.sqrt()),
-            BOp::WideMul => ser_int(&wide(t).unwrap(), &(x * y), &mut o),
+            BOp::WideMul => ser_wide(t, &(x * y), &mut o),
+            BOp::WideSquare => ser_wide(t, &(x * x), &mut o),
+            BOp::MulModN | BOp::InvModN | BOp::DivModN | BOp::U512DivRem if y.is_zero() => o.push(BigInt::one()),
+            BOp::MulModN => {
+                o.push(BigInt::zero());
+                let xy = x.to_biguint().unwrap() ^ y.to_biguint().unwrap();
+                ser_int(t, &(x * BigInt::from(xy)).mod_floor(y), &mut o);
+            }
+            BOp::InvModN | BOp::DivModN => {
+                // The inverse of x modulo y exists iff gcd(x, y) == 1 and y != 1.
+                o.push(BigInt::zero());
+                let e = x.extended_gcd(y);
+                if !e.gcd.is_one() || y.is_one() {
+                    o.push(BigInt::one());
+                } else {
+                    let inv = e.x.mod_floor(y);
+                    o.push(BigInt::zero());
+                    if op == BOp::InvModN {
+                        ser_int(t, &inv, &mut o);
+                    } else {
+                        let xy = BigInt::from(x.to_biguint().unwrap() ^ y.to_biguint().unwrap());
+                        ser_int(t, &(xy * inv).mod_floor(y), &mut o);
+                    }
+                }
+            }
+            BOp::U512DivRem => {
+                o.push(BigInt::zero());
+                let xy = BigInt::from(x.to_biguint().unwrap() ^ y.to_biguint().unwrap());
+                let (q, r) = (x * xy).div_mod_floor(y);
+                ser_wide(t, &q, &mut o);
+                ser_int(t, &r, &mut o);
+            }
+            BOp::ByteReverse => {
+                let mut b = x.to_biguint().unwrap().to_bytes_le();
+                b.resize(16, 0);
+                o.push(BigInt::from(num_bigint::BigUint::from_bytes_be(&b)));
+            }
             BOp::DivRem => {
                 if y.is_zero() {
                     o.push(BigInt::one());
@@ -467,31 +544,8 @@ pub fn judge_pair(tp: &TypeProgram, x: &BigInt, y: &BigInt) -> Result<u32, (Stri
 }
 
 fn model_len(t: &Ty, op: &BOp, x: &BigInt, y: &BigInt) -> usize {
-    // Length of one operation's serialisation: compute through a single-op model.
-    let w = if *t == Ty::U256 { 2 } else { 1 };
-    let (min, max) = (t.min(), t.max());
-    let ar = |k: &str| match k {
-        "add" => x + y,
-        "sub" => x - y,
-        _ => x * y,
-    };
-    match op {
-        BOp::Ovf(_) => w + 1,
-        BOp::Wrap(_) | BOp::Sat(_) | BOp::Bit(_) | BOp::Not => w,
-        BOp::Chk(k) => {
-            let r = ar(k);
-            if r < min || r > max { 1 } else { 1 + w }
-        }
-        BOp::Cmp(_) => 1,
-        BOp::Sqrt => 1,
-        BOp::WideMul => if wide(t) == Some(Ty::U256) { 2 } else { 1 },
-        BOp::DivRem => if y.is_zero() { 1 } else { 1 + 2 * w },
-        BOp::Cast(c) => match eval::convert(t, c, x) {
-            Some(_) => 1 + if *c == Ty::U256 { 2 } else { 1 },
-            None => 1,
-        },
-        BOp::FeltDiv => if y.is_zero() { 1 } else { 2 },
-    }
+    // Length of one operation's serialisation: through a single-op model.
+    model_ops(t, std::slice::from_ref(op), x, y).len()
 }
 
 fn is_boundary(t: &Ty, v: &BigInt) -> bool {
